@@ -1,2 +1,16 @@
 NOT_APPLICABLE = {}
-CLAIMED = {}
+_NOTE = ('Trusted: Coq 8.16.1 kernel incl. vm_compute (no native_compute); no axioms (every property theorem is '
+         '"Closed under the global context", re-printed by Print Assumptions on every run); the ast translators in '
+         'translate/; the correspondence harness (generators, Python->Coq printer, canonical outcomes, ObjectId/utcnow '
+         'patches). The theorem is about the hand-written Gallina model; the model is tied to /repo by running model and '
+         'implementation on the same generated inputs every run (vm_compute inside coqc). ')
+CLAIMED = {
+ 'C01': dict(design_ref='DESIGN.md 5/C01',
+   text='Theorem C01_filter_match (Properties/C01.v): for every filter AST and document inside the guard G01 the model of '
+        '_Filterer.apply returns exactly what MongoDB\'s matching rules (Spec/FilterSpec.v, written from the statement) say, '
+        'unbounded in nesting depth and size; the guard\'s complement is the list of known findings plus constructs outside '
+        'the fragment (regex, $where, $expr). The model is checked against the real matcher on 3000 (quick) / 60000 (thorough) '
+        'generated (filter, document) pairs per run, inside and outside the guard.',
+   note=_NOTE + 'Outside the model: regular expressions, $where/$text, $expr (C04), Python int() oddities on path components, NaN/inf.',
+   technique='Coq proof (mutual induction over the filter AST) + differential correspondence by vm_compute'),
+}
